@@ -1,7 +1,10 @@
 package main
 
 import (
+	"archive/tar"
 	"context"
+	"crypto/sha256"
+	"encoding/hex"
 	"encoding/json"
 	"flag"
 	"fmt"
@@ -25,6 +28,30 @@ type workerResult struct {
 	Digest string `json:"digest,omitempty"`
 	DiffID string `json:"diffid,omitempty"`
 	Err    string `json:"err,omitempty"`
+	// for the triage of a digest difference: the installed database of the image and a
+	// hash over every other entry of the layer
+	InstalledDB string `json:"installed_db,omitempty"`
+	RestHash    string `json:"rest_hash,omitempty"`
+}
+
+// splitLayer reads the uncompressed layer: lib/apk/db/installed, and a hash of all the rest
+func splitLayer(r io.Reader) (db string, rest string) {
+	tr := tar.NewReader(r)
+	h := sha256.New()
+	for {
+		hdr, err := tr.Next()
+		if err != nil {
+			break
+		}
+		b, _ := io.ReadAll(tr)
+		if hdr.Name == "lib/apk/db/installed" {
+			db = string(b)
+			continue
+		}
+		fmt.Fprintf(h, "%s|%d|%o|%d|%d|%s|%d\n", hdr.Name, hdr.Typeflag, hdr.Mode, hdr.Uid, hdr.Gid, hdr.Linkname, len(b))
+		h.Write(b)
+	}
+	return db, hex.EncodeToString(h.Sum(nil))
 }
 
 // workerMain performs ONE real apko layer build (pkg/build, the code path of
@@ -40,6 +67,7 @@ func workerMain(args []string) {
 	pkgs := fs.String("pkgs", "", "comma separated packages")
 	result := fs.String("result", "", "file to write the JSON result to")
 	tmp := fs.String("tmp", "", "temp dir")
+	dump := fs.String("dump", os.Getenv("C19_DUMP"), "write the uncompressed layer here")
 	_ = fs.Parse(args)
 
 	res := workerResult{}
@@ -91,7 +119,17 @@ func workerMain(args []string) {
 			res.Err = "diffid: " + err.Error()
 			return
 		}
+		if *dump != "" {
+			if rc, err := layers[0].Uncompressed(); err == nil {
+				b, _ := io.ReadAll(rc)
+				_ = os.WriteFile(fmt.Sprintf("%s.%d.tar", *dump, os.Getpid()), b, 0o644)
+			}
+		}
 		res = workerResult{OK: true, Digest: d.String(), DiffID: di.String()}
+		if rc, err := layers[0].Uncompressed(); err == nil {
+			res.InstalledDB, res.RestHash = splitLayer(rc)
+			rc.Close()
+		}
 	}()
 	b, _ := json.Marshal(res)
 	if *result != "" {
